@@ -304,11 +304,13 @@ func (e *handlerStore[T]) onSubEvent(handler T) {
 
 func (e *handlerStore[T]) offSubEvent(handler T) {
 	e.mu.Lock()
-	for i, sub := range e.subs {
-		if sub == handler {
-			e.subs = append(e.subs[:i], e.subs[i+1:]...)
+	subs := make([]T, 0, len(e.subs))
+	for _, sub := range e.subs {
+		if sub != handler {
+			subs = append(subs, sub)
 		}
 	}
+	e.subs = subs
 	vhook.Event("hs.offsub", "o", e, "e", "", "h", vhook.PtrID{P: handler})
 	e.mu.Unlock()
 }
@@ -339,25 +341,25 @@ func (e *handlerStore[T]) off(handler ...T) {
 	}
 	defer func() { vhook.Event("hs.off", "o", e, "e", "", "hs", handler) }()
 
-	remove := func(slice []T, s int) []T {
-		return append(slice[:s], slice[s+1:]...)
-	}
-
-	for i, h := range e.funcs {
-		for _, _h := range handler {
-			if h == _h {
-				e.funcs = remove(e.funcs, i)
+	// Build new slices instead of removing in place while ranging.
+	filter := func(slice []T) []T {
+		kept := make([]T, 0, len(slice))
+		for _, h := range slice {
+			remove := false
+			for _, _h := range handler {
+				if h == _h {
+					remove = true
+					break
+				}
+			}
+			if !remove {
+				kept = append(kept, h)
 			}
 		}
+		return kept
 	}
-
-	for i, h := range e.funcsOnce {
-		for _, _h := range handler {
-			if h == _h {
-				e.funcsOnce = remove(e.funcsOnce, i)
-			}
-		}
-	}
+	e.funcs = filter(e.funcs)
+	e.funcsOnce = filter(e.funcsOnce)
 }
 
 func (e *handlerStore[T]) offAll() {
@@ -429,21 +431,27 @@ func (e *eventHandlerStore) off(eventName string, handler ...reflect.Value) {
 	}
 	defer func() { vhook.Event("hs.off", "o", e, "e", eventName, "hs", handler) }()
 
-	remove := func(slice []*eventHandler, s int) []*eventHandler {
-		return append(slice[:s], slice[s+1:]...)
+	// Build new slices instead of removing in place while ranging.
+	filter := func(slice []*eventHandler) []*eventHandler {
+		kept := make([]*eventHandler, 0, len(slice))
+		for _, event := range slice {
+			remove := false
+			for _, h := range handler {
+				if event.rv.Pointer() == h.Pointer() {
+					remove = true
+					break
+				}
+			}
+			if !remove {
+				kept = append(kept, event)
+			}
+		}
+		return kept
 	}
 
 	events, ok := e.events[eventName]
 	if ok {
-		for i, event := range events {
-			for _, h := range handler {
-				ep := event.rv.Pointer()
-				hp := h.Pointer()
-				if ep == hp {
-					events = remove(events, i)
-				}
-			}
-		}
+		events = filter(events)
 		if len(events) == 0 {
 			delete(e.events, eventName)
 		} else {
@@ -453,15 +461,7 @@ func (e *eventHandlerStore) off(eventName string, handler ...reflect.Value) {
 
 	eventsOnce, ok := e.eventsOnce[eventName]
 	if ok {
-		for i, event := range eventsOnce {
-			for _, h := range handler {
-				ep := event.rv.Pointer()
-				hp := h.Pointer()
-				if ep == hp {
-					eventsOnce = remove(eventsOnce, i)
-				}
-			}
-		}
+		eventsOnce = filter(eventsOnce)
 		if len(eventsOnce) == 0 {
 			delete(e.eventsOnce, eventName)
 		} else {
